@@ -202,8 +202,14 @@ func collectBlockDeps(block *BlockStmt, locals map[string]bool, add func(string)
 	if block == nil {
 		return
 	}
+	// Declarations made inside the block go out of scope at its end: work on a
+	// copy so that a module-scope name shadowed here is seen again afterwards.
+	scoped := make(map[string]bool, len(locals))
+	for k, v := range locals {
+		scoped[k] = v
+	}
 	for _, s := range block.Statements {
-		collectStmtDeps(s, locals, add)
+		collectStmtDeps(s, scoped, add)
 	}
 }
 
@@ -241,6 +247,12 @@ func collectStmtDeps(s Stmt, locals map[string]bool, add func(string)) {
 	case *BlockStmt:
 		collectBlockDeps(s, locals, add)
 	case *ForStmt:
+		// the loop variable is scoped to the for statement
+		outer := locals
+		locals = make(map[string]bool, len(outer)+1)
+		for k, v := range outer {
+			locals[k] = v
+		}
 		if s.Init != nil {
 			collectStmtDeps(s.Init, locals, add)
 		}
